@@ -328,8 +328,30 @@ fn in_domain_opt(m: &Model, dangling_ok: bool) -> bool {
 
 /// Operation stays inside what the DIFF world may do to a real filesystem
 fn admissible(m: &Model, op: &Op) -> bool {
+    admissible_x(m, op, false)
+}
+
+/// `cwd_fault`: the call that removes the (empty) working directory itself is let through - the
+/// "working directory vanished" fault. While it is gone only calls that are stated to do no IO
+/// with the cwd (abs of an absolute spelling) and the way back (set_cwd to an absolute path) run.
+fn admissible_x(m: &Model, op: &Op, cwd_fault: bool) -> bool {
+    if m.k(&m.t.cwd) == K::Missing {
+        return match op {
+            Op::Abs { p } | Op::SetCwd { p } => p.starts_with('/'),
+            _ => false,
+        };
+    }
     if let Op::Abs { .. } = op {
         return true; // does no IO whatever its argument
+    }
+    if cwd_fault {
+        if let Op::Remove { p } = op {
+            if let Ok(a) = m.abs(p) {
+                if a == m.t.cwd && a != "/" && m.k(&a) == K::Dir && m.t.children(&a).is_empty() && !m.through_link(&a) {
+                    return true;
+                }
+            }
+        }
     }
     let mut abs = vec![];
     for p in op.paths() {
@@ -469,7 +491,13 @@ fn materialise_disk(sb: &Sandbox, t: &Tree) -> std::io::Result<()> {
         match n.kind {
             Kind::Dir => std::fs::create_dir(&p)?,
             Kind::File => std::fs::write(&p, &n.data.clone().unwrap_or_default().0)?,
-            Kind::Link => std::os::unix::fs::symlink(n.rel.clone().unwrap_or_default(), &p)?,
+            Kind::Link => {
+                // an absolute text is a virtual path: on disk it must name the place inside the
+                // sandbox (the virtual root is not the real root)
+                let text = n.rel.clone().unwrap_or_default();
+                let text = if text.starts_with('/') { sb.real(&text) } else { text };
+                std::os::unix::fs::symlink(text, &p)?
+            },
         }
     }
     // permissions last (a restrictive parent must not block creating its children)
@@ -642,6 +670,7 @@ pub fn run_diff(
     let mut attempts = 0;
     let mut live: Vec<Option<LiveH>> = vec![None; 4];
     let dangling_ok = prop == "C10";
+    let cwd_fault = prop == "C02";
     while i < total {
         if !in_domain_opt(&m, dangling_ok) {
             stats.bump("runs_ended_leaving_the_domain");
@@ -655,14 +684,28 @@ pub fn run_diff(
                 }
                 let mut op = gen.next_op(&m, rng);
                 sanitize(&mut op);
-                if !admissible(&m, &op) || !comparable(&op) || !handle_ok(&live, &m, &op) {
+                if cwd_fault && m.k(&m.t.cwd) == K::Missing {
+                    // the working directory has vanished: abs of absolute spellings, then the way back
+                    let keys: Vec<String> = m.t.nodes.keys().cloned().collect();
+                    let k = rng.pick(&keys[..]).clone();
+                    op = match rng.below(4) {
+                        0 => Op::SetCwd { p: "/".into() },
+                        1 => Op::Abs { p: format!("{}/x/../y", if k == "/" { "" } else { &k }) },
+                        _ => Op::Abs { p: k },
+                    };
+                    stats.bump("fault.F9_working_directory_vanished.calls_while_gone");
+                } else if cwd_fault && m.t.cwd != "/" && m.k(&m.t.cwd) == K::Dir && m.t.children(&m.t.cwd).is_empty() && rng.chance(1, 6) {
+                    op = Op::Remove { p: m.t.cwd.clone() };
+                    stats.bump("fault.F9_working_directory_vanished");
+                }
+                if !admissible_x(&m, &op, cwd_fault) || !comparable(&op) || !handle_ok(&live, &m, &op) {
                     continue;
                 }
                 op
             },
             Src::Replay(o) => {
                 let op = o[i].clone();
-                if !admissible(&m, &op) || !handle_ok(&live, &m, &op) {
+                if !admissible_x(&m, &op, cwd_fault) || !handle_ok(&live, &m, &op) {
                     i += 1;
                     continue;
                 }
@@ -709,8 +752,21 @@ pub fn run_diff(
         stats.steps += 1;
         let step = out.ops.len() - 1;
         let mut v: Option<Violation> = None;
+        let _ = exec::ENTRY_MISMATCH.with(|mm| mm.borrow_mut().take());
+        if let Some(d) = exec::FOLLOW_TWICE.with(|mm| mm.borrow_mut().take()) {
+            if prop == "C10" {
+                v = Some(Violation {
+                    property: prop.into(),
+                    oracle: "follow-swaps-once".into(),
+                    step,
+                    sig: format!("follow-twice|{}", vop.label()),
+                    detail: format!("{:?}: {}", vop, d.chars().take(400).collect::<String>()),
+                });
+            }
+        }
         let (mn, sn) = (normalise(&mo), normalise(&so));
-        if mo.class3() != so.class3() {
+        if v.is_some() {
+        } else if mo.class3() != so.class3() {
             v = Some(Violation {
                 property: prop.into(),
                 oracle: "backend-outcome".into(),
@@ -756,7 +812,8 @@ pub fn run_diff(
             let mut ds = tree::diff(&mt, &dt, CMP);
             let mcwd = mem.cwd().map(|c| exec::ps(&c)).unwrap_or_default();
             let mcwd_v = sb.virt(&mcwd).unwrap_or(mcwd);
-            if mcwd_v != dt.cwd {
+            // a working directory that no longer exists has no counterpart to compare
+            if mcwd_v != dt.cwd && mt.nodes.contains_key(&mcwd_v) {
                 ds.push(tree::Delta { what: "cwd", path: mcwd_v.clone(), detail: format!("memfs cwd {} disk cwd {}", mcwd_v, dt.cwd) });
             }
             if !ds.is_empty() {
@@ -997,7 +1054,8 @@ pub fn run_twin(prop: &str, base: &Sandbox, venv: &Env, pre: &Tree, mut src: Src
     let mut i = 0;
     let mut attempts = 0;
     while i < total {
-        if !in_domain(&m) {
+        // both sides are the real backend: dangling links are as comparable as any other state
+        if !in_domain_opt(&m, true) {
             break;
         }
         let vop = match &mut src {
@@ -1008,7 +1066,7 @@ pub fn run_twin(prop: &str, base: &Sandbox, venv: &Env, pre: &Tree, mut src: Src
                 }
                 let mut op = gen.next_op(&m, rng);
                 sanitize(&mut op);
-                if !admissible(&m, &op) || !comparable(&op) || op.is_handle_op() {
+                if !admissible(&m, &op) || !comparable(&op) {
                     continue;
                 }
                 if let Op::Abs { p } = &op {
@@ -1046,6 +1104,7 @@ pub fn run_twin(prop: &str, base: &Sandbox, venv: &Env, pre: &Tree, mut src: Src
         let nb = format!("{:?}", normalise_order(&ob)).replace(&b.root, "<SB>").replace(&b.base, "<SBBASE>");
         let what = if prop == "C05" { "spelling" } else { "wrapper" };
         let mut v: Option<Violation> = None;
+        let _ = exec::FOLLOW_TWICE.with(|mm| mm.borrow_mut().take());
         if let Some(d) = exec::ENTRY_MISMATCH.with(|mm| mm.borrow_mut().take()) {
             if prop == "C13" {
                 v = Some(Violation {
@@ -1163,6 +1222,11 @@ pub fn twin_index(id: &str, tier: &str, seed: u64, idx: u64, stats: &mut Stats, 
     if id == "C05" {
         p.spelling = 2;
     }
+    // handles behave identically on both sides (same backend), so they need no special care here
+    p.weights = cat(&[
+        &p.weights,
+        &[("open_read", 2), ("open_write", 2), ("open_append", 2), ("h_write", 5), ("h_flush", 2), ("h_drop", 3), ("h_read", 3), ("h_seek", 2), ("h_read_to_end", 1), ("read_all", 3)],
+    ]);
     let mut gen = Gen::new(p, format!("{}", idx), &mut rng);
     let venv = venv_of(&gen.names, &mut rng);
     let pre = random_tree(&mut gen, &venv, &mut rng);
@@ -1480,6 +1544,198 @@ fn node_delta(a: &Node, b: &Node) -> Option<&'static str> {
     }
 }
 
+fn solo_link_op(t: &Tree, rng: &mut Rng) -> Option<Op> {
+    let all: Vec<String> = t.nodes.keys().filter(|k| *k != "/").cloned().collect();
+    if all.is_empty() {
+        return None;
+    }
+    let links: Vec<String> = t.nodes.iter().filter(|(_, n)| n.kind == Kind::Link).map(|(k, _)| k.clone()).collect();
+    let dirs: Vec<String> = t.nodes.iter().filter(|(_, n)| n.kind == Kind::Dir).map(|(k, _)| k.clone()).collect();
+    let pk = if !links.is_empty() && rng.chance(3, 4) { rng.pick(&links[..]).clone() } else { rng.pick(&all[..]).clone() };
+    let spelled = solo_spell(t, &pk, rng);
+    Some(match rng.below(20) {
+        0 | 1 => Op::IsSymlink { p: spelled },
+        2 => Op::IsDir { p: spelled },
+        3 => Op::IsFile { p: spelled },
+        4 | 5 | 6 => Op::IsSymlinkDir { p: spelled },
+        7 | 8 | 9 => Op::IsSymlinkFile { p: spelled },
+        10 | 11 => Op::Readlink { p: pk },
+        12 | 13 => Op::ReadlinkAbs { p: pk },
+        14 | 15 | 16 => Op::Entry { p: spelled },
+        17 => {
+            // one more level of indirection
+            let dd = rng.pick(&dirs[..]).clone();
+            let nn: &str = *rng.pick(&["m1", "m2", "a", "b"][..]);
+            Op::Symlink { l: tree::join(&dd, nn), t: pk }
+        },
+        // (the mutating calls go to links only: the question is what happens to the target)
+        18 if !links.is_empty() => Op::Remove { p: rng.pick(&links[..]).clone() },
+        19 if !links.is_empty() => Op::Chmod { p: rng.pick(&links[..]).clone(), mode: *rng.pick(&[0o700, 0o755, 0o640]) },
+        _ => Op::IsSymlink { p: pk },
+    })
+}
+
+/// What the OS says about a path: (entry exists, is a link, kind when followed: Some(true)=dir,
+/// Some(false)=file, None=nothing there), the link text
+fn os_facts(real: &str) -> (bool, bool, bool, bool, Option<bool>, Option<String>) {
+    let lm = std::fs::symlink_metadata(real).ok();
+    let exists = lm.is_some();
+    let is_link = lm.as_ref().map(|m| m.file_type().is_symlink()).unwrap_or(false);
+    let own_dir = lm.as_ref().map(|m| m.is_dir()).unwrap_or(false);
+    let own_file = lm.as_ref().map(|m| m.is_file()).unwrap_or(false);
+    let followed = std::fs::metadata(real).ok().map(|m| m.is_dir());
+    let text = if is_link { std::fs::read_link(real).ok().map(|t| t.to_string_lossy().into_owned()) } else { None };
+    (exists, is_link, own_dir, own_file, followed, text)
+}
+
+#[allow(clippy::too_many_arguments)]
+fn solo_link_step(prop: &str, sb: &Sandbox, std_: &Stdfs, hs: &mut Handles, before: &Tree, vop: &Op, step: usize, stats: &mut Stats) -> (Outcome, Option<Violation>) {
+    let p = match vop.paths().first() {
+        Some(p) => p.clone(),
+        None => return (Outcome::Skip, None),
+    };
+    let real = sb.real(&p);
+    let (exists, is_link, own_dir, own_file, followed, text) = os_facts(&real);
+    // the place the link text leads to, one hop, cleaned, in virtual terms
+    let one_hop = text.as_ref().map(|t| {
+        let dir = tree::parent(&p).unwrap_or_else(|| "/".into());
+        if t.starts_with('/') {
+            sb.virt(&crate::refpath::clean(t)).unwrap_or_else(|| crate::refpath::clean(t))
+        } else {
+            crate::refpath::clean(&format!("{}/{}", dir, t))
+        }
+    });
+    // what a mutating call must leave alone: the entry the link finally leads to
+    let final_target = if is_link { canon_virt(sb, &p) } else { None };
+    let target_before = final_target.as_ref().and_then(|c| before.nodes.get(c).cloned());
+    if crate::TRACE.load(std::sync::atomic::Ordering::Relaxed) {
+        use std::io::Write;
+        println!("T {}", json!({"label": vop.label(), "op": vop}));
+        let _ = std::io::stdout().flush();
+    }
+    let so = exec::exec(std_, hs, &sb.map_op(vop));
+    let _ = exec::ENTRY_MISMATCH.with(|mm| mm.borrow_mut().take());
+    let twice = exec::FOLLOW_TWICE.with(|mm| mm.borrow_mut().take());
+    let class = format!(
+        "{}{}",
+        if !exists {
+            "missing"
+        } else if is_link {
+            "link"
+        } else if own_dir {
+            "dir"
+        } else {
+            "file"
+        },
+        match (is_link, followed) {
+            (true, Some(true)) => "->dir",
+            (true, Some(false)) => "->file",
+            (true, None) => "->nothing",
+            _ => "",
+        }
+    );
+    stats.triples.insert(format!("solo-links|{}|{}|{}", vop.label(), class, so.class3()));
+    stats.bump(&format!("solo.{}.{}", vop.name(), so.class3()));
+    let bad = |what: &str, detail: String| -> Option<Violation> {
+        Some(Violation {
+            property: prop.into(),
+            oracle: "stdfs-link-law".into(),
+            step,
+            sig: format!("solo-link-law|{}|{}|{}", vop.label(), class, what),
+            detail: format!("{:?} on Stdfs (path is {}): {}", vop, class, detail),
+        })
+    };
+    let want_bool = |b: bool| -> Option<Violation> {
+        if so == Outcome::Ok(Val::Bool(b)) {
+            None
+        } else {
+            bad("answer", format!("got {:?}, the OS says {}", so, b))
+        }
+    };
+    let v = match vop {
+        _ if matches!(so, Outcome::Panic(_)) => bad("panic", format!("{:?}", so)),
+        Op::IsSymlink { .. } => want_bool(is_link),
+        Op::IsDir { .. } => want_bool(own_dir),
+        Op::IsFile { .. } => want_bool(own_file),
+        Op::IsSymlinkDir { .. } => want_bool(is_link && followed == Some(true)),
+        Op::IsSymlinkFile { .. } => want_bool(is_link && followed == Some(false)),
+        Op::ReadlinkAbs { .. } => match (&one_hop, &so) {
+            (Some(h), Outcome::Ok(Val::Path(got))) => {
+                let got_v = sb.virt(got).unwrap_or_else(|| got.clone());
+                if got_v == *h {
+                    None
+                } else {
+                    bad("target", format!("readlink_abs gives {} but the link text leads to {}", got_v, h))
+                }
+            },
+            (Some(_), _) => bad("refused", format!("{:?} for a link", so)),
+            (None, Outcome::Err(_)) => None,
+            (None, _) => bad("non-link-accepted", format!("{:?} for something that is not a link", so)),
+        },
+        Op::Readlink { .. } => match (&one_hop, &so) {
+            (Some(h), Outcome::Ok(Val::Path(got))) => {
+                let dir = tree::parent(&p).unwrap_or_else(|| "/".into());
+                let joined = if got.starts_with('/') { sb.virt(got).unwrap_or_else(|| got.clone()) } else { crate::refpath::clean(&format!("{}/{}", dir, got)) };
+                if joined == *h {
+                    None
+                } else {
+                    bad("target", format!("dir(link)/readlink cleans to {} but the link text leads to {}", joined, h))
+                }
+            },
+            (Some(_), _) => bad("refused", format!("{:?} for a link", so)),
+            (None, Outcome::Err(_)) => None,
+            (None, _) => bad("non-link-accepted", format!("{:?} for something that is not a link", so)),
+        },
+        Op::Entry { .. } => match &so {
+            Outcome::Ok(Val::EntryF(v0, v1, _v2, v3)) => {
+                if let Some(t) = twice {
+                    bad("follow-twice", t)
+                } else if v0.link != is_link || v0.symlink_dir != (is_link && followed == Some(true)) || v0.symlink_file != (is_link && followed == Some(false)) {
+                    bad("entry-kind", format!("entry says link={} symlink_dir={} symlink_file={}, the OS says link={} followed={:?}", v0.link, v0.symlink_dir, v0.symlink_file, is_link, followed))
+                } else if !is_link && (v0.dir != own_dir || v0.file != own_file) {
+                    bad("entry-kind", format!("entry says dir={} file={}, the OS says dir={} file={}", v0.dir, v0.file, own_dir, own_file))
+                } else if is_link && !(v1.path == v0.alt && v1.alt == v0.path && v1.following) {
+                    bad("follow-swap", format!("before {:?} after follow(true) {:?}", v0, v1))
+                } else if v3 != v1 {
+                    bad("follow-swap", format!("follow(true) {:?} but after follow(false), follow(true) {:?}", v1, v3))
+                } else {
+                    None
+                }
+            },
+            Outcome::Err(_) if !exists => None,
+            other => {
+                if exists {
+                    bad("refused", format!("{:?} for an existing entry", other))
+                } else {
+                    bad("missing-accepted", format!("{:?} for nothing", other))
+                }
+            },
+        },
+        Op::Remove { .. } | Op::Chmod { .. } => {
+            // acts on the link itself, never on what it leads to
+            let after = disk_tree(sb).ok();
+            match (&final_target, &target_before, &after) {
+                (Some(c), Some(b), Some(a)) if is_link && so.is_ok() => match a.nodes.get(c) {
+                    None => bad("target-touched", format!("{} (what the link led to) is gone", c)),
+                    Some(n) => match node_delta(b, n) {
+                        Some(w) => bad("target-touched", format!("{} (what the link led to) changed: {}", c, w)),
+                        None => {
+                            if matches!(vop, Op::Remove { .. }) && a.nodes.contains_key(&p) {
+                                bad("link-still-there", "remove reported success".into())
+                            } else {
+                                None
+                            }
+                        },
+                    },
+                },
+                _ => None,
+            }
+        },
+        _ => None,
+    };
+    (so, v)
+}
+
 pub fn run_solo(prop: &str, sb: &Sandbox, pre: &Tree, mut src: Src, stats: &mut Stats, known: &dyn Fn(&Violation) -> bool) -> DiffOut {
     let mut out = DiffOut { ops: vec![], violations: vec![], log_hash: 0, harness_skip: None };
     if let Err(e) = sb.fresh() {
@@ -1516,12 +1772,32 @@ pub fn run_solo(prop: &str, sb: &Sandbox, pre: &Tree, mut src: Src, stats: &mut 
         };
         solo_resolve_targets(sb, &mut before);
         let vop = match &mut src {
-            Src::Gen { rng, .. } => match solo_op(&before, rng) {
-                Some(o) => o,
-                None => break,
+            Src::Gen { rng, .. } => {
+                let o = if prop == "C10" { solo_link_op(&before, rng) } else { solo_op(&before, rng) };
+                match o {
+                    Some(o) => o,
+                    None => break,
+                }
             },
             Src::Replay(o) => o[i].clone(),
         };
+        if prop == "C10" {
+            // link laws on the real backend alone, judged by what the OS says about the same path
+            let (so, v) = solo_link_step(prop, sb, &std_, &mut hs, &before, &vop, out.ops.len(), stats);
+            out.ops.push(vop.clone());
+            stats.steps += 1;
+            out.log_hash = hash_bytes(out.log_hash, format!("{:?}{}", vop, so.class3()).as_bytes());
+            if let Some(v) = v {
+                if known(&v) {
+                    *stats.known_hits.entry(v.sig.clone()).or_insert(0) += 1;
+                    stats.runs_ended_by_known += 1;
+                } else {
+                    out.violations.push(v);
+                }
+                break;
+            }
+            continue;
+        }
         let (s, d) = match &vop {
             Op::Copy { s, d } | Op::CopyB { s, d, .. } | Op::MoveP { s, d } => (s.clone(), d.clone()),
             _ => continue,
@@ -1672,8 +1948,11 @@ pub fn solo_index(id: &str, tier: &str, seed: u64, idx: u64, stats: &mut Stats, 
         sb.cleanup();
         o
     });
-    if out.harness_skip.is_some() {
+    if let Some(why) = &out.harness_skip {
         stats.bump("HARNESS.solo_run_skipped");
+        if std::env::var("RVSIM_DEBUG").is_ok() {
+            eprintln!("note: SOLO run {} skipped: {} after {:?}", idx, why, out.ops);
+        }
         return None;
     }
     stats.distinct_cases.insert(out.log_hash);
